@@ -49,6 +49,10 @@ ENT_STYLES = {
     2: {"&": "&#x26;", "<": "&#x3c;", '"': "&#x22;", "'": "&#x27;"},
     3: {"&": "&#x26;", "<": "&#x3C;", '"': "&#X22;".lower(), "'": "&#x27;"},
     4: {"&": "&amp;", "<": "&lt;", '"': "&quot;", "'": "&apos;"},
+    # hexadecimal references with a capital X; letters as named entities
+    # (one of them starts with an x)
+    5: {"&": "&#X26;", "<": "&#X3C;", '"': "&#X22;", "'": "&#X27;",
+        "\u03be": "&xi;", "\u039e": "&Xi;", "\u00e9": "&eacute;"},
 }
 STYLE = {"n": 0}
 
@@ -65,7 +69,12 @@ def encode_expr(src, ctx):
         out = out.replace('"', e['"'])
     if ctx == "sq":
         out = out.replace("'", e["'"])
-    return out.replace("\0", e["&"]).replace("\2", "&")
+    out = out.replace("\0", e["&"]).replace("\2", "&")
+    if ctx in ("text", "dq", "sq"):
+        for ch in ("\u03be", "\u039e", "\u00e9"):
+            if ch in e:
+                out = out.replace(ch, e[ch])
+    return out
 
 
 @st.composite
@@ -141,7 +150,7 @@ def cases(draw):
     return {
         "items": draw(items(3, counter)),
         "comment_interpolation": draw(st.sampled_from([True, True, False])),
-        "entity_style": draw(st.integers(0, 4)),
+        "entity_style": draw(st.integers(0, 5)),
         "bindings": {"a": draw(sc), "b": draw(sc)},
     }
 
